@@ -55,7 +55,8 @@ void h_recv_any(void) {
   if (g_last_arb == as_won && role_of(&h) != 1) g_active_open = 0;   /* the won arbitration was abandoned (request withdrawn meanwhile) */
   __CPROVER_assert(g_rx.emit == (g_reported == 1), "[C01,C02,C15] a complete valid telegram on the bus is reported exactly once (received, sent or answered)");
   ASSERT_INV(&h, 1);
-  __CPROVER_assert(rel_scalars(&h, 0, 0), "[C01,C02,C15] handler state follows the reference recogniser and the entitlement monitor");
+  __CPROVER_assert(role_of(&h) != 1 || g_active_open, "[C03] after an echo mismatch, a receive error or a SYN ebusd has left the sending role (it stays silent until the next SYN)");
+  __CPROVER_assert(rel_scalars(&h, 0, 0), "[C01,C02,C03,C15] handler state follows the reference recogniser and the entitlement monitor");
   __CPROVER_assert(REL_BUFS(&h), "[C01,C02,C15] collected / sent bytes equal the unescaped bytes on the bus");
   __CPROVER_assert(NO_LOST_REQUEST, "[C04] no request is left in limbo by a receive step");
 #if !defined(CASE_ROLE) || CASE_ROLE == 1
